@@ -61,10 +61,10 @@ func TestHTTPWire(t *testing.T) {
 		case "", "identity":
 			bc.passes = true
 		case "deflate":
-			_, err := web.DecompressWithZlib(bc.body)
+			_, err := fakes.Inflate("deflate", bc.body)
 			bc.passes = err == nil
 		case "lz4":
-			_, err := web.DecompressWithLz4(bc.body)
+			_, err := fakes.Inflate("lz4", bc.body)
 			bc.passes = err == nil
 		default:
 			bc.passes = false
@@ -169,7 +169,7 @@ func exchange(addr string, raw []byte) (int, error) {
 		tc.SetLinger(0) // RST instead of TIME_WAIT: thousands of cases share the ephemeral port range
 		tc.Close()
 	}()
-	tc.SetDeadline(time.Now().Add(120 * time.Second))
+	tc.SetDeadline(time.Now().Add(45 * time.Second))
 	if _, err := tc.Write(raw); err != nil {
 		// the server may answer and close before a large body is written; the answer is still readable
 	}
